@@ -2066,6 +2066,29 @@ func (ctx Ctx) assignStmt(s *ast.AssignStmt) coq.Binding {
 	return ctx.assignFromTo(s, lhs, rhs)
 }
 
+// hasIdentity reports whether evaluating e calls a function or allocates, so
+// that evaluating it twice is different from evaluating it once
+func (ctx Ctx) hasIdentity(e ast.Expr) bool {
+	found := ctx.hasCall(e)
+	ast.Inspect(e, func(n ast.Node) bool {
+		switch n := n.(type) {
+		case *ast.CompositeLit:
+			switch ctx.typeOf(n).Underlying().(type) {
+			case *types.Slice, *types.Map:
+				found = true
+			}
+		case *ast.UnaryExpr:
+			if n.Op == token.AND {
+				found = true
+			}
+		case *ast.FuncLit:
+			return false
+		}
+		return !found
+	})
+	return found
+}
+
 // hasCall reports whether evaluating e involves a function or method call
 // (conversions and the builtins len and cap do not count)
 func (ctx Ctx) hasCall(e ast.Expr) bool {
@@ -2321,6 +2344,13 @@ func (ctx Ctx) constDecl(d *ast.GenDecl) []coq.Decl {
 	for _, spec := range d.Specs {
 		vs := spec.(*ast.ValueSpec)
 		ctx.checkInterfaceConversions(vs, nil)
+		for _, v := range vs.Values {
+			if ctx.hasIdentity(v) {
+				// the definition is expanded at every use, which would
+				// allocate (or call) again each time
+				ctx.unsupported(v, "global variable initialized by a call or an allocation (globals are translated as constants)")
+			}
+		}
 		ctx.dep.addName(vs.Names[0].Name)
 		specs = append(specs, ctx.constSpec(vs))
 	}
@@ -2336,6 +2366,13 @@ func (ctx Ctx) globalVarDecl(d *ast.GenDecl) []coq.Decl {
 	for _, spec := range d.Specs {
 		vs := spec.(*ast.ValueSpec)
 		ctx.checkInterfaceConversions(vs, nil)
+		for _, v := range vs.Values {
+			if ctx.hasIdentity(v) {
+				// the definition is expanded at every use, which would
+				// allocate (or call) again each time
+				ctx.unsupported(v, "global variable initialized by a call or an allocation (globals are translated as constants)")
+			}
+		}
 		ctx.dep.addName(vs.Names[0].Name)
 		specs = append(specs, ctx.constSpec(vs))
 	}
